@@ -8,7 +8,7 @@ namespace Pithos.Parts
 
 -- ---------------------------------------------------------------- reconciliation is a no-op on consistent states
 
-theorem reconcileOne_obsOf {s : St} (h : RefInv s) (o : Obs) (ho : o ∈ obsOf s) : reconcileOne s o = s := by
+theorem reconcileOne_obsOf (q : SqlFacts) {s : St} (h : RefInv s) (o : Obs) (ho : o ∈ obsOf s) : reconcileOne q s o = s := by
   obtain ⟨_, hact, h3⟩ := obsOf_mem ho
   rcases h3 with ⟨c, v, hr, hrc, hv⟩ | ⟨hr, hpos, _⟩
   · have hc := h.cnt o.pid c v hr
@@ -21,7 +21,7 @@ theorem reconcileOne_obsOf {s : St} (h : RefInv s) (o : Obs) (ho : o ∈ obsOf s
     simp [h0, hrc']
   · have := h.regd o.pid hr; omega
 
-theorem reconcileAll_fix {s : St} (l : List Obs) (h : ∀ o ∈ l, reconcileOne s o = s) : reconcileAll s l = s := by
+theorem reconcileAll_fix (q : SqlFacts) {s : St} (l : List Obs) (h : ∀ o ∈ l, reconcileOne q s o = s) : reconcileAll q s l = s := by
   induction l with
   | nil => rfl
   | cons o os ih =>
@@ -29,8 +29,8 @@ theorem reconcileAll_fix {s : St} (l : List Obs) (h : ∀ o ∈ l, reconcileOne 
     rw [h o (by simp)]
     exact ih (fun x hx => h x (List.mem_cons_of_mem _ hx))
 
-theorem reconcileAll_obsOf {s : St} (h : RefInv s) : reconcileAll s (obsOf s) = s :=
-  reconcileAll_fix _ (fun o ho => reconcileOne_obsOf h o ho)
+theorem reconcileAll_obsOf (q : SqlFacts) {s : St} (h : RefInv s) : reconcileAll q s (obsOf s) = s :=
+  reconcileAll_fix q _ (fun o ho => reconcileOne_obsOf q h o ho)
 
 -- ---------------------------------------------------------------- condemn, in closed form
 
@@ -379,7 +379,7 @@ theorem afterDedup_inv {s : St} (h : RefInv s) : RefInv (afterDedup s) := by
 theorem gcRunF_eq (cfg : Cfg) (fail : PartId → Bool) {s : St} (h : RefInv s) :
     gcRunF cfg fail s = cfg.storeNames.foldl (sweepStore cfg fail) (afterDedup s) := by
   unfold gcRunF
-  simp only [reconcileAll_obsOf h]
+  simp only [reconcileAll_obsOf cfg.sql h]
   rfl
 
 theorem gcRunF_weak (cfg : Cfg) (fail : PartId → Bool) {s : St} (h : RefInv s) (hx : s.gcExt = []) :
